@@ -6,7 +6,7 @@
 use serde_json::{Value, json};
 use vh_common::{Rng, Run, brief, first_diff, trap};
 use vh_mpq::cfggen::*;
-use wow_mpq::Archive;
+use wow_mpq::{Archive, OpenOptions};
 
 fn subset_axes() -> Vec<Vec<u32>> {
     vec![
@@ -14,14 +14,17 @@ fn subset_axes() -> Vec<Vec<u32>> {
         vec![0, 1, 3, 5],          // shift
         vec![0x00, 0x02, 0x10],    // none, zlib, bzip2
         vec![0, 1, 2],             // plain, encrypted, encrypted+fixkey
-        vec![0],                   // no sector CRC
-        vec![0],                   // no attributes
+        vec![0],                   // sector CRC: off in the product; on in the checksum variants below
+        vec![0],                   // attributes: likewise
         vec![1, 0],                // listfile
         vec![0],
     ]
 }
 
 const LOCALES: [u16; 2] = [0x409, 0x407];
+
+/// (generate_crcs, attributes option) of the checksum variants: every product point is built a second time with one of them
+const CRC_VARIANTS: [(u32, u32); 5] = [(1, 0), (0, 1), (1, 1), (0, 2), (1, 2)];
 
 fn main() {
     let mut run = Run::new();
@@ -42,6 +45,16 @@ fn main() {
         for v in [1u32, 2] { for m in [0u32, 0x02] { for e in [1u32, 2] {
             points.push(vec![v, 10, m, e, 0, 0, 1, 0]);
         }}}
+        // sector checksums and the (attributes) file (appended, so that the indices of the cases above stay what they were):
+        // the product once more per repetition, each point with one of the five (generate_crcs, attributes) combinations
+        for r in 0..reps {
+            let mut n = 0usize;
+            for v in &ax[0] { for s in &ax[1] { for m in &ax[2] { for e in &ax[3] { for l in &ax[6] {
+                let (crc, attr) = CRC_VARIANTS[(n + r) % CRC_VARIANTS.len()];
+                points.push(vec![*v, *s, *m, *e, crc, attr, *l, 0]);
+                n += 1;
+            }}}}}
+        }
         for (i, p) in points.iter().enumerate() {
             let idx = i as u64;
             if !run.want(idx) {
@@ -87,7 +100,31 @@ fn main() {
             run.case(idx, &cfg.class(), desc, |c| {
                 // the last two files carry a language id (hash-entry locale field); everything else is neutral
                 let nl = files.len().saturating_sub(2);
-                let mut b = add_files(cfg.builder(), &cfg, &files[..nl]);
+                // the expected contents go to disk first: every second file enters the builder by path (add_file,
+                // add_file_with_options, add_file_with_encryption), the others from memory (add_file_data* as before, plus the
+                // default-compression entry point)
+                for (k, f) in files.iter().enumerate() {
+                    let _ = std::fs::write(dir.join(format!("a-{idx}.f{k}")), &f.data);
+                }
+                let mut b = cfg.builder();
+                for (k, f) in files[..nl].iter().enumerate() {
+                    let fp = dir.join(format!("a-{idx}.f{k}"));
+                    let (nb, how) = match (cfg.enc, k % 4) {
+                        (0, 1) => (b.add_file_with_options(&fp, &f.name, cfg.method, false, 0), "add_file_with_options"),
+                        (0, 3) => (b.add_file(&fp, &f.name), "add_file"),
+                        (0, 2) => (b.add_file_data(f.data.clone(), &f.name), "add_file_data"),
+                        (0, _) => (b.add_file_data_with_options(f.data.clone(), &f.name, cfg.method, false, 0), "add_file_data_with_options"),
+                        (1, 1) => (b.add_file_with_encryption(&fp, &f.name, cfg.method, false, 0), "add_file_with_encryption"),
+                        (1, 3) => (b.add_file_with_options(&fp, &f.name, cfg.method, true, 0), "add_file_with_options"),
+                        (1, 2) => (b.add_file_data_with_options(f.data.clone(), &f.name, cfg.method, true, 0), "add_file_data_with_options"),
+                        (1, _) => (b.add_file_data_with_encryption(f.data.clone(), &f.name, cfg.method, false, 0), "add_file_data_with_encryption"),
+                        (_, 1) | (_, 3) => (b.add_file_with_encryption(&fp, &f.name, cfg.method, true, 0), "add_file_with_encryption"),
+                        _ => (b.add_file_data_with_encryption(f.data.clone(), &f.name, cfg.method, true, 0), "add_file_data_with_encryption"),
+                    };
+                    b = nb;
+                    c.count(&format!("a_files_added_through|{how}"), 1);
+                    c.count(if k % 2 == 1 { "a_files_added_from_disk" } else { "a_files_added_from_memory" }, 1);
+                }
                 for (k, f) in files[nl..].iter().enumerate() {
                     let loc = LOCALES[k % LOCALES.len()];
                     b = match cfg.enc {
@@ -106,8 +143,21 @@ fn main() {
                     Ok(Ok(())) => {
                         c.count("archives_written", 1);
                         // what the library itself reads as header (compared field by field with the reference parse)
+                        let mut attr_dump = Value::Null;
                         let hdr = match Archive::open(&path) {
-                            Ok(a) => {
+                            Ok(mut a) => {
+                                // the (attributes) file as the library itself reads it (the reference extraction is compared with it)
+                                if cfg.has_attributes() {
+                                    attr_dump = match trap(|| a.read_file("(attributes)")) {
+                                        Ok(Ok(d)) => {
+                                            let ap = dir.join(format!("a-{idx}.attributes"));
+                                            let _ = std::fs::write(&ap, &d);
+                                            json!({"content": ap.to_string_lossy()})
+                                        }
+                                        Ok(Err(e)) => json!({"err": e.to_string()}),
+                                        Err(p) => json!({"err": format!("panic: {}", p.msg)}),
+                                    };
+                                }
                                 let h = a.header();
                                 json!({"header_size": h.header_size, "archive_size": h.archive_size, "version": h.format_version as u16, "shift": h.block_size,
                                        "hash_pos": h.get_hash_table_pos(), "block_pos": h.get_block_table_pos(), "hash_size": h.hash_table_size, "block_size": h.block_table_size,
@@ -118,11 +168,10 @@ fn main() {
                         let mut fl: Vec<Value> = Vec::new();
                         for (k, f) in files.iter().enumerate() {
                             let fp = dir.join(format!("a-{idx}.f{k}"));
-                            let _ = std::fs::write(&fp, &f.data);
                             let loc = if k >= nl { LOCALES[(k - nl) % LOCALES.len()] } else { 0 };
                             fl.push(json!({"name": f.name, "len": f.data.len(), "class": f.class, "content": fp.to_string_lossy(), "locale": loc}));
                         }
-                        let man = json!({"idx": idx, "cfg": cfg.to_json(), "class": cfg.class(), "enc": cfg.enc, "method": cfg.method, "sector": cfg.sector_size(), "listfile": cfg.listfile, "header": hdr, "files": fl, "archive": path.to_string_lossy()});
+                        let man = json!({"idx": idx, "cfg": cfg.to_json(), "class": cfg.class(), "enc": cfg.enc, "method": cfg.method, "sector": cfg.sector_size(), "listfile": cfg.listfile, "sector_crc": cfg.effective_crc(), "has_attributes": cfg.has_attributes(), "attributes": attr_dump, "header": hdr, "files": fl, "archive": path.to_string_lossy()});
                         let _ = std::fs::write(dir.join(format!("a-{idx}.json")), man.to_string());
                     }
                 }
@@ -157,6 +206,8 @@ fn main() {
                 // dependency). So for each predicate combination first read one file that is stored raw (no decompressor involved).
                 // If the probe is wrong, the combination is recorded once as violation and its compressed members are skipped
                 // (counted); if the probe is right (deviation repaired), every member is read and compared strictly.
+                // what read_file answered for the name as given (None = error or panic): the other ways in must answer the same
+                let mut first_pass: std::collections::BTreeMap<String, Option<Vec<u8>>> = Default::default();
                 let mut deviating: std::collections::BTreeSet<String> = Default::default();
                 let mut probed: std::collections::BTreeSet<String> = Default::default();
                 for f in &files {
@@ -198,7 +249,11 @@ fn main() {
                     for (s, spk) in sp {
                         c.count("files_compared", 1);
                         let dev_sig = format!("B|unreadable-or-wrong|{fclass}");
-                        match trap(|| ar.read_file(&s)) {
+                        let res = trap(|| ar.read_file(&s));
+                        if spk == "as-given" {
+                            first_pass.insert(name.to_string(), match &res { Ok(Ok(d)) => Some(d.clone()), _ => None });
+                        }
+                        match res {
                             Err(p) => c.violate(if clean { format!("B|ref-read-panic|conformant-file|{}", p.sig()) } else { dev_sig }, format!("read_file({:?}) panicked on a reference-written archive: {}", s, p.msg), f.clone()),
                             Ok(Err(e)) => c.violate(if clean { format!("B|ref-read-error|conformant-file|{spk}") } else { dev_sig }, format!("read_file({:?}) failed on a reference-written archive: {e}", s), json!({"file": f, "opts": man["opts"]})),
                             Ok(Ok(got)) => {
@@ -238,6 +293,123 @@ fn main() {
                         }
                         Ok(Err(e)) => c.violate("ref-list-error", format!("list() failed on a reference-written archive with a listfile: {e}"), man["opts"].clone()),
                         Err(p) => c.violate(format!("ref-list-panic|{}", p.sig()), format!("list() panicked: {}", p.msg), man["opts"].clone()),
+                    }
+                }
+
+                // ---- the other ways in (alternative entry points must agree with what was judged above)
+                // (a) tables loaded after the open: OpenOptions::new().load_tables(false).open + load_tables
+                match trap(|| OpenOptions::new().load_tables(false).open(apath)) {
+                    Ok(Ok(mut ar2)) => {
+                        c.count("b_deferred_opens", 1);
+                        match trap(|| ar2.load_tables()) {
+                            Ok(Ok(())) => {
+                                c.count("b_deferred_load_tables", 1);
+                                for (name, first) in first_pass.iter() {
+                                    c.count("b_deferred_reads_compared", 1);
+                                    let second = match trap(|| ar2.read_file(name)) { Ok(Ok(d)) => Some(d), _ => None };
+                                    if second != *first {
+                                        c.violate("B|deferred-tables|read-differs-from-plain-open", format!("read_file({:?}) after OpenOptions.load_tables(false) + load_tables() answers {} where the archive opened with Archive::open answers {}", name,
+                                            second.as_ref().map(|d| format!("{} bytes", d.len())).unwrap_or("an error".into()), first.as_ref().map(|d| format!("{} bytes", d.len())).unwrap_or("an error".into())), man["opts"].clone());
+                                        break;
+                                    }
+                                }
+                            }
+                            Ok(Err(e)) => c.violate("B|deferred-tables|load-tables-error", format!("load_tables() failed on an archive that Archive::open loads: {e}"), man["opts"].clone()),
+                            Err(p) => c.violate(format!("B|deferred-tables|load-tables-panic|{}", p.sig()), format!("load_tables() panicked: {}", p.msg), man["opts"].clone()),
+                        }
+                    }
+                    Ok(Err(e)) => c.violate("B|deferred-tables|open-error", format!("OpenOptions::new().load_tables(false).open failed on an archive that Archive::open opens: {e}"), man["opts"].clone()),
+                    Err(p) => c.violate(format!("B|deferred-tables|open-panic|{}", p.sig()), format!("open panicked: {}", p.msg), man["opts"].clone()),
+                }
+                // (b) enumeration from the tables alone: one entry per stored file, carrying the block-table fields (and the two
+                // name hashes) the reference wrote; names may be generic
+                let blocks = man["blocks"].as_array().cloned().unwrap_or_default();
+                if !blocks.is_empty() {
+                    let want_rows: Vec<(u64, u64, u64)> = { let mut v: Vec<_> = blocks.iter().map(|b| (b["fsize"].as_u64().unwrap_or(0), b["csize"].as_u64().unwrap_or(0), b["flags"].as_u64().unwrap_or(0))).collect(); v.sort(); v };
+                    let nolist = !man["opts"]["listfile"].as_bool().unwrap_or(false);
+                    match trap(|| ar.list_all()) {
+                        Ok(Ok(l)) => {
+                            c.count("b_list_all_calls", 1);
+                            if nolist { c.count("b_list_all_calls_without_listfile", 1); }
+                            c.count("b_list_all_entries", l.len() as u64);
+                            let mut got: Vec<(u64, u64, u64)> = l.iter().map(|e| (e.size, e.compressed_size, e.flags as u64)).collect();
+                            got.sort();
+                            if got.len() != want_rows.len() {
+                                c.violate("B|list-all|entry-count", format!("list_all() returns {} entries for a reference-written archive with {} stored files", got.len(), want_rows.len()), man["opts"].clone());
+                            } else if got != want_rows {
+                                let k = (0..got.len()).find(|&k| got[k] != want_rows[k]).unwrap_or(0);
+                                c.violate("B|list-all|block-fields", format!("list_all(): (size, stored size, flags) of the entries differ from the block table the reference wrote, e.g. {:?} vs {:?}", got[k], want_rows[k]), man["opts"].clone());
+                            }
+                        }
+                        Ok(Err(e)) => c.violate("B|list-all|error", format!("list_all() failed on a reference-written archive: {e}"), man["opts"].clone()),
+                        Err(p) => c.violate(format!("B|list-all|panic|{}", p.sig()), format!("list_all() panicked: {}", p.msg), man["opts"].clone()),
+                    }
+                    match trap(|| ar.list_all_with_hashes()) {
+                        Ok(Ok(l)) => {
+                            c.count("b_list_all_with_hashes_calls", 1);
+                            if l.len() != blocks.len() {
+                                c.violate("B|list-all-with-hashes|entry-count", format!("list_all_with_hashes() returns {} entries, {} stored files", l.len(), blocks.len()), man["opts"].clone());
+                            }
+                            for e in &l {
+                                let Some((_, Some(bi))) = e.table_indices else { continue };
+                                let Some(b) = blocks.get(bi) else {
+                                    c.violate("B|list-all-with-hashes|block-index-out-of-range", format!("entry {:?} points at block {bi}, the archive has {}", e.name, blocks.len()), man["opts"].clone());
+                                    break;
+                                };
+                                c.count("b_name_hash_pairs_compared", 1);
+                                let want = (b["hash_a"].as_u64().unwrap_or(0) as u32, b["hash_b"].as_u64().unwrap_or(0) as u32);
+                                if e.hashes != Some(want) || e.size != b["fsize"].as_u64().unwrap_or(0) {
+                                    c.violate("B|list-all-with-hashes|hash-entry-fields", format!("entry for block {bi}: name hashes {:x?} size {}, the reference stored {:x?} size {}", e.hashes, e.size, want, b["fsize"]), man["opts"].clone());
+                                    break;
+                                }
+                            }
+                        }
+                        Ok(Err(e)) => c.violate("B|list-all-with-hashes|error", format!("list_all_with_hashes() failed: {e}"), man["opts"].clone()),
+                        Err(p) => c.violate(format!("B|list-all-with-hashes|panic|{}", p.sig()), format!("list_all_with_hashes() panicked: {}", p.msg), man["opts"].clone()),
+                    }
+                    // (c) list_with_hashes: the hashes the library computes for the listed names are the ones the reference computed
+                    if !nolist {
+                        match trap(|| ar.list_with_hashes()) {
+                            Ok(Ok(l)) => {
+                                c.count("b_list_with_hashes_calls", 1);
+                                for e in &l {
+                                    let Some(b) = blocks.iter().find(|b| b["name"].as_str().map(|n| n.eq_ignore_ascii_case(&e.name)).unwrap_or(false)) else { continue };
+                                    c.count("b_computed_name_hashes_compared", 1);
+                                    let want = (b["hash_a"].as_u64().unwrap_or(0) as u32, b["hash_b"].as_u64().unwrap_or(0) as u32);
+                                    if e.hashes != Some(want) {
+                                        c.violate("B|list-with-hashes|name-hashes", format!("list_with_hashes(): {:?} has hashes {:x?}, the reference hash gives {:x?}", e.name, e.hashes, want), man["opts"].clone());
+                                        break;
+                                    }
+                                }
+                            }
+                            Ok(Err(e)) => c.violate("B|list-with-hashes|error", format!("list_with_hashes() failed: {e}"), man["opts"].clone()),
+                            Err(p) => c.violate(format!("B|list-with-hashes|panic|{}", p.sig()), format!("list_with_hashes() panicked: {}", p.msg), man["opts"].clone()),
+                        }
+                    }
+                    // (d) probing and access by table position: find_file lands in the slot / block the reference placed the name in,
+                    // and read_file_by_indices answers what read_file answers (files without encryption: no name, no key)
+                    for f in &files {
+                        let name = f["name"].as_str().unwrap_or("");
+                        let Some(bi) = f["bi"].as_u64() else { continue };
+                        let Some(b) = blocks.get(bi as usize) else { continue };
+                        let Ok(Some(fi)) = ar.find_file(name) else { continue }; // a missing name is judged above
+                        c.count("b_probe_positions_compared", 1);
+                        if fi.hash_index as u64 != b["slot"].as_u64().unwrap_or(u64::MAX) || fi.block_index as u64 != bi {
+                            c.violate("B|find-file|table-position", format!("find_file({:?}) reports hash slot {} / block {}, the reference placed it in slot {} / block {bi}", name, fi.hash_index, fi.block_index, b["slot"]), man["opts"].clone());
+                            break;
+                        }
+                        if man["opts"]["enc"].as_u64().unwrap_or(0) != 0 {
+                            continue;
+                        }
+                        let Some(first) = first_pass.get(name) else { continue };
+                        c.count("b_reads_by_indices_compared", 1);
+                        let got = match trap(|| ar.read_file_by_indices(fi.hash_index, Some(fi.block_index))) { Ok(Ok(d)) => Some(d), _ => None };
+                        if got != *first {
+                            let shape = format!("{}|{}|{}|{}", if f["single_unit"].as_bool().unwrap_or(false) { "single" } else { "sectored" }, if fi.flags & 0x200 != 0 { "compress-flag" } else { "no-compress-flag" },
+                                if f["stored_raw"].as_bool().unwrap_or(false) { "stored-raw" } else { "stored-compressed" }, if f["len"].as_u64() == Some(0) { "empty" } else { "non-empty" });
+                            c.violate(format!("B|read-by-indices|differs-from-read-file|{shape}"), format!("read_file_by_indices for {:?} answers {} where read_file answers {}", name,
+                                got.as_ref().map(|d| format!("{} bytes", d.len())).unwrap_or("an error".into()), first.as_ref().map(|d| format!("{} bytes", d.len())).unwrap_or("an error".into())), json!({"file": f, "opts": man["opts"]}));
+                        }
                     }
                 }
             });
